@@ -42,6 +42,8 @@ func runHistory(prop string, seed int64, prm [4]uint64, float int64, n int, g *G
 				break
 			}
 			op = script[i]
+		} else if g != nil && g.importAt > 0 && i == g.importAt {
+			op = Op{Kind: "ExportImport"}
 		} else {
 			op = g.next(prev, n-i)
 		}
@@ -111,7 +113,20 @@ func main() {
 	var items []string
 	record := func(h histResult, hid string) {
 		items = append(items, coqCase(h.w, h.steps))
+		seenSig := map[string]int{}
 		for _, f := range h.fails {
+			seenSig[f.sig]++
+		}
+		for _, f := range h.fails {
+			// one report per signature and history (the report keeps at most 50 failures: repeated consequences of one
+			// known finding must not crowd out anything else)
+			if seenSig[f.sig] < 0 {
+				continue
+			}
+			if n := seenSig[f.sig]; n > 1 {
+				f.what = fmt.Sprintf("%s (%d occurrences in this history)", f.what, n)
+			}
+			seenSig[f.sig] = -1
 			rep.Fail(lib.Failure{Kind: "monitor", What: f.what, Sig: f.sig, Replay: map[string]interface{}{"history": hid, "prop": prop, "chain_seed": h.seed,
 				"module_float": h.float, "params": h.w.params0, "ops": h.ops}})
 		}
@@ -127,6 +142,10 @@ func main() {
 	}
 	for i := 0; i < nHist; i++ {
 		g := &Gen{r: r, prop: prop, endBad: r.Chance(6)}
+		if prop == "C05" && r.Chance(6) { // a genesis round trip of the module; the history goes on for a few steps (C05-2 signature)
+			g.importAt = nOps - 3 - r.Intn(6)
+			g.endBad = false
+		}
 		prm := paramSets[r.Intn(len(paramSets))]
 		float := int64(100000)
 		if r.Chance(25) {
@@ -247,6 +266,15 @@ func scripted(prop string) []script {
 			{Kind: "NextBlock"},
 			{Kind: "RequestBatch", Token: 0, Which: 1, FeeRcv: 0, MinFee: 1, Auth: true},
 			{Kind: "BridgeCall", Sender: 0, Refund: 1, Coins: [][2]int64{{0, 50}}, To: 2, Data: []byte{1}},
+			// the restored registry: bridged tokens keep working after the import (ids collide: C05-2)
+			{Kind: "Send", Sender: 1, Dest: 0, Amount: 14, Fee: 9, Token: 1},
+			{Kind: "SendP", Sender: 2, Dest: 0, Amount: 15, Fee: 3, Token: 3},
+			{Kind: "IncreaseFee", ID: 2, Who: 0, Add: 4, Token: 3, Which: 1},
+			{Kind: "NextBlock"},
+			{Kind: "RequestBatch", Token: 3, Which: 1, FeeRcv: 0, MinFee: 1, Auth: true},
+			{Kind: "Observe", H: 1001},
+			{Kind: "Cancel", ID: 4, Who: 1},
+			{Kind: "BatchExecuted", Token: 3, Nonce: 2, H: 1002},
 		}})
 	}
 	// (9) transfers started from the EVM through the real crossChain precompile: ERC-20 of the registered coin (outgoing
@@ -324,6 +352,46 @@ func scripted(prop string) []script {
 		{Kind: "ExecResult", E: 3},
 		{Kind: "Observe", H: 1003},
 		{Kind: "Observe", H: 1004},
+	}})
+	// (14) C05 only — finding C05-3: an outgoing bridge call carrying an externally owned ERC-20 (registered the production
+	// way) can never be refunded: the failure result cannot be executed, and the event that reaches the time-out cannot be
+	// observed at all (the time-out refund panics inside the oracles' claim), which blocks every later event of the module
+	if prop == "C05" {
+		out = append(out, script{paramSets[2], 100000, []Op{
+			{Kind: "Observe", H: 1000},
+			{Kind: "BridgeCallP", Sender: 0, Refund: 1, Coins: [][2]int64{{4, 60}}, To: 2, Data: []byte{1}},
+			{Kind: "ObserveResult", Nonce: 1, Success: false, H: 1001},
+			{Kind: "ExecResult", E: 2},
+			{Kind: "ExecResult", E: 2, Evm: true},
+			{Kind: "Send", Sender: 0, Dest: 1, Amount: 10, Fee: 5, Token: 0},
+			{Kind: "Observe", H: 1003},
+			{Kind: "Observe", H: 1004},
+		}})
+	}
+	// (15) the precompile entry points with both kinds of registered ERC-20 and FX: crossChain (relation, refund as ERC-20),
+	// increaseBridgeFee (paid as ERC-20 / FX value), cancelSendToExternal and executeClaim through the precompile; the fee
+	// increase of the externally owned token leaves base coins locked in the erc20 module, out of which a later bridge-call
+	// refund of that token can be paid
+	out = append(out, script{paramSets[2], 100000, []Op{
+		{Kind: "Observe", H: 1000},
+		{Kind: "SendP", Sender: 0, Dest: 1, Amount: 40, Fee: 5, Token: 4},
+		{Kind: "SendP", Sender: 1, Dest: 2, Amount: 30, Fee: 2, Token: 3},
+		{Kind: "SendP", Sender: 2, Dest: 0, Amount: 20, Fee: 3, Token: 0},
+		{Kind: "Send", Sender: 0, Dest: 1, Amount: 25, Fee: 4, Token: 3},
+		{Kind: "IncreaseFeeP", ID: 1, Who: 2, Add: 100, Token: 4},
+		{Kind: "IncreaseFeeP", ID: 2, Who: 0, Add: 7, Token: 3},
+		{Kind: "IncreaseFeeP", ID: 3, Who: 1, Add: 6, Token: 0},
+		{Kind: "IncreaseFeeP", ID: 4, Who: 1, Add: 5, Token: 3},
+		{Kind: "IncreaseFee", ID: 1, Who: 1, Add: 2, Token: 4, Which: 1},
+		{Kind: "Cancel", ID: 1, Who: 0, Evm: true},
+		{Kind: "Cancel", ID: 3, Who: 2, Evm: true},
+		{Kind: "Cancel", ID: 4, Who: 1, Evm: true},
+		{Kind: "Cancel", ID: 4, Who: 0, Evm: true},
+		{Kind: "BridgeCallP", Sender: 0, Refund: 1, Coins: [][2]int64{{4, 60}}, To: 2, Data: []byte{1}},
+		{Kind: "ObserveResult", Nonce: 1, Success: false, H: 1001},
+		{Kind: "ExecResult", E: 2, Evm: true},
+		{Kind: "RequestBatch", Token: 3, Which: 1, FeeRcv: 0, MinFee: 1, Auth: true},
+		{Kind: "BatchExecuted", Token: 3, Nonce: 1, H: 1002},
 	}})
 	// (4) more than 100 entries of one token: the batch takes the 100 best, ties by descending id
 	var big []Op
